@@ -389,4 +389,194 @@ theorem tupIP_eq {m : ℕ} (U : Matrix (Fin m) (Fin m) GQ) (hU : Uᴴ * U = 1) :
     · have : ¬ (s :: r = s' :: r') := by simp [e1]
       rw [if_neg e1, if_neg this, zero_mul]
 
+/-! ### superposed members: ‖Uψ‖² = ‖ψ‖² -/
+
+theorem tuples_keys {m : ℕ} (U : Matrix (Fin m) (Fin m) GQ) (s : Fock) (r : List Fock) :
+    (tuples U (s :: r)).map (·.1) =
+      (allStates m s.sum).flatMap fun t => ((tuples U r).map (·.1)).map (t :: ·) := by
+  rw [tuples_cons, List.map_flatMap]
+  simp [List.map_map, Function.comp_def]
+
+theorem tuples_keys_nodup {m : ℕ} (U : Matrix (Fin m) (Fin m) GQ) :
+    ∀ gs : List Fock, ((tuples U gs).map (·.1)).Nodup
+  | [] => by simp [tuples]
+  | s :: r => by
+    rw [tuples_keys, List.nodup_flatMap]
+    constructor
+    · intro t _
+      exact (tuples_keys_nodup U r).map (fun a b h => by simpa using h)
+    · apply List.Pairwise.imp_of_mem (R := fun a b => a ≠ b)
+      · intro a b _ _ hab
+        simp only [Function.onFun, List.disjoint_left, List.mem_map]
+        rintro x ⟨r, _, rfl⟩ ⟨r', _, h⟩
+        simp at h
+        exact hab h.1.symm
+      · exact allStates_nodup m s.sum
+
+theorem ampGet_flatMap_termAmps {m : ℕ} (U : Matrix (Fin m) (Fin m) GQ) (terms : List Term)
+    (K : List Fock) :
+    ampGet (terms.flatMap (termAmps U)) K =
+      (terms.map fun t => t.coef * ampGet (tuples U t.groups) K).sum := by
+  induction terms with
+  | nil => rfl
+  | cons t r ih =>
+    rw [List.flatMap_cons, ampGet_append, ih, List.map_cons, List.sum_cons]
+    congr 1
+    exact ampGet_map_mul t.coef (tuples U t.groups) K
+
+/-- inner product of two evolved basis states, summed over any key set that contains the first one's keys -/
+theorem sum_keys_eq_tupIP {m : ℕ} (U : Matrix (Fin m) (Fin m) GQ) (gs gs' : List Fock)
+    (S : Finset (List Fock)) (hS : ∀ K ∈ (tuples U gs).map (·.1), K ∈ S) :
+    ∑ K ∈ S, star (ampGet (tuples U gs) K) * ampGet (tuples U gs') K * ginv K = tupIP U gs gs' := by
+  have hsub : ((tuples U gs).map (·.1)).toFinset ⊆ S := by
+    intro K hK
+    exact hS K (List.mem_toFinset.1 hK)
+  rw [← Finset.sum_subset hsub]
+  · rw [List.sum_toFinset _ (tuples_keys_nodup U gs), List.map_map]
+    unfold tupIP
+    congr 1
+    apply List.map_congr_left
+    intro p hp
+    simp only [Function.comp_apply]
+    rw [ampGet_self _ (tuples_keys_nodup U gs) p hp]
+  · intro K _ hK
+    rw [ampGet_of_not_mem _ K (fun h => hK (List.mem_toFinset.2 h))]
+    simp
+
+theorem sv_norm_core {m : ℕ} (U : Matrix (Fin m) (Fin m) GQ) (hU : Uᴴ * U = 1) (terms : List Term)
+    (hlen : ∀ t ∈ terms, ∀ s ∈ t.groups, s.length = m) (hnd : (terms.map (·.groups)).Nodup) :
+    ∑ K ∈ ((terms.flatMap (termAmps U)).map (·.1)).toFinset,
+        star (ampGet (terms.flatMap (termAmps U)) K) * ampGet (terms.flatMap (termAmps U)) K * ginv K
+      = (terms.map fun t => star t.coef * t.coef * (((t.groups.map prodFact).prod : ℕ) : GQ)).sum := by
+  set S := ((terms.flatMap (termAmps U)).map (·.1)).toFinset with hSdef
+  have hA : ∀ K, ampGet (terms.flatMap (termAmps U)) K =
+      ∑ i : Fin terms.length, terms[i.val].coef * ampGet (tuples U terms[i.val].groups) K := by
+    intro K
+    rw [ampGet_flatMap_termAmps,
+      ← Fin.sum_univ_fun_getElem terms (fun t => t.coef * ampGet (tuples U t.groups) K)]
+  have hkeys : ∀ i : Fin terms.length, ∀ K ∈ (tuples U terms[i.val].groups).map (·.1), K ∈ S := by
+    intro i K hK
+    rw [hSdef, List.mem_toFinset]
+    obtain ⟨p, hp, rfl⟩ := List.mem_map.1 hK
+    refine List.mem_map.2 ⟨(p.1, terms[i.val].coef * p.2), ?_, rfl⟩
+    refine List.mem_flatMap.2 ⟨terms[i.val], List.getElem_mem _, ?_⟩
+    exact List.mem_map.2 ⟨p, hp, rfl⟩
+  calc ∑ K ∈ S, star (ampGet (terms.flatMap (termAmps U)) K) *
+          ampGet (terms.flatMap (termAmps U)) K * ginv K
+      = ∑ K ∈ S, ∑ i : Fin terms.length, ∑ j : Fin terms.length,
+          (star terms[i.val].coef * terms[j.val].coef) *
+            (star (ampGet (tuples U terms[i.val].groups) K) * ampGet (tuples U terms[j.val].groups) K *
+              ginv K) := by
+        refine Finset.sum_congr rfl fun K _ => ?_
+        rw [hA K, star_sum, Finset.sum_mul_sum, Finset.sum_mul]
+        refine Finset.sum_congr rfl fun i _ => ?_
+        rw [Finset.sum_mul]
+        refine Finset.sum_congr rfl fun j _ => ?_
+        rw [star_mul']
+        ring
+    _ = ∑ i : Fin terms.length, ∑ j : Fin terms.length,
+          (star terms[i.val].coef * terms[j.val].coef) * tupIP U terms[i.val].groups terms[j.val].groups := by
+        rw [Finset.sum_comm]
+        refine Finset.sum_congr rfl fun i _ => ?_
+        rw [Finset.sum_comm]
+        refine Finset.sum_congr rfl fun j _ => ?_
+        rw [← Finset.mul_sum, sum_keys_eq_tupIP U _ _ S (hkeys i)]
+    _ = ∑ i : Fin terms.length,
+          star terms[i.val].coef * terms[i.val].coef * (((terms[i.val].groups.map prodFact).prod : ℕ) : GQ) := by
+        refine Finset.sum_congr rfl fun i _ => ?_
+        rw [Finset.sum_eq_single i]
+        · rw [tupIP_eq U hU terms[i.val].groups terms[i.val].groups (hlen _ (List.getElem_mem _))
+            (hlen _ (List.getElem_mem _)), if_pos rfl]
+        · intro j _ hji
+          rw [tupIP_eq U hU terms[i.val].groups terms[j.val].groups (hlen _ (List.getElem_mem _))
+            (hlen _ (List.getElem_mem _)), if_neg, mul_zero]
+          intro e
+          apply hji
+          have := (List.Nodup.getElem_inj_iff hnd (i := i.val) (j := j.val)
+            (hi := by simp) (hj := by simp)).1 (by simpa using e)
+          exact Fin.ext this.symm
+        · intro h; exact absurd (Finset.mem_univ i) h
+    _ = _ := Fin.sum_univ_fun_getElem terms
+          (fun t => star t.coef * t.coef * (((t.groups.map prodFact).prod : ℕ) : GQ))
+
+theorem normSq_div_eq (v : GQ) (K : List Fock) :
+    GQ.normSq v / (((K.map prodFact).prod : ℕ) : ℚ) = reHom (star v * v * ginv K) := by
+  show _ = (star v * v * ginv K).re
+  rw [mul_ginv_re]
+  congr 1
+  simp [GQ.normSq]
+
+/-- total probability of a superposed member, before using unitarity -/
+theorem mass_probsSV {m : ℕ} (U : Matrix (Fin m) (Fin m) GQ) (terms : List Term) :
+    mass (probsSV U terms) =
+      reHom (∑ K ∈ ((terms.flatMap (termAmps U)).map (·.1)).toFinset,
+        star (ampGet (terms.flatMap (termAmps U)) K) * ampGet (terms.flatMap (termAmps U)) K * ginv K)
+        / svNorm2 terms := by
+  have h := sum_gatherAmps (terms.flatMap (termAmps U))
+    (fun K v => GQ.normSq v / (((K.map prodFact).prod : ℕ) : ℚ) / svNorm2 terms)
+  have e : mass (probsSV U terms) = ((gatherAmps (terms.flatMap (termAmps U))).map fun p =>
+      GQ.normSq p.2 / (((p.1.map prodFact).prod : ℕ) : ℚ) / svNorm2 terms).sum := by
+    simp [mass, probsSV, svAmps, Function.comp_def]
+  rw [e, h, map_sum, div_eq_mul_inv, Finset.sum_mul]
+  refine Finset.sum_congr rfl fun K _ => ?_
+  rw [normSq_div_eq, div_eq_mul_inv]
+
+theorem probsSV_mass_one_aux {m : ℕ} (U : Matrix (Fin m) (Fin m) GQ) (hU : Uᴴ * U = 1)
+    (terms : List Term) (hlen : ∀ t ∈ terms, ∀ s ∈ t.groups, s.length = m)
+    (hnd : (terms.map (·.groups)).Nodup) (hN : svNorm2 terms ≠ 0) : mass (probsSV U terms) = 1 := by
+  rw [mass_probsSV, sv_norm_core U hU terms hlen hnd, map_list_sum, List.map_map]
+  have : (terms.map (reHom ∘ fun t : Term =>
+      star t.coef * t.coef * (((t.groups.map prodFact).prod : ℕ) : GQ))) =
+      terms.map fun t => GQ.normSq t.coef * ((t.groups.map prodFact).prod : ℚ) := by
+    apply List.map_congr_left
+    intro t _
+    show (star t.coef * t.coef * (((t.groups.map prodFact).prod : ℕ) : GQ)).re = _
+    rw [GQ_natCast]
+    simp [GQ.ofRat, GQ.normSq]
+  rw [this]
+  exact div_self hN
+
+/-- the squared norm of a superposition is non-zero as soon as one coefficient is -/
+theorem svNorm2_ne_zero (terms : List Term) (h : ∃ t ∈ terms, t.coef ≠ 0) : svNorm2 terms ≠ 0 := by
+  have hnn : ∀ t : Term, 0 ≤ GQ.normSq t.coef * ((t.groups.map prodFact).prod : ℚ) := by
+    intro t
+    apply mul_nonneg
+    · unfold GQ.normSq
+      exact add_nonneg (mul_self_nonneg _) (mul_self_nonneg _)
+    · positivity
+  obtain ⟨t, ht, hc⟩ := h
+  have hpos : 0 < GQ.normSq t.coef * ((t.groups.map prodFact).prod : ℚ) := by
+    apply mul_pos
+    · unfold GQ.normSq
+      by_contra hle
+      have h1 := mul_self_nonneg t.coef.re
+      have h2 := mul_self_nonneg t.coef.im
+      have e1 : t.coef.re * t.coef.re = 0 := by linarith
+      have e2 : t.coef.im * t.coef.im = 0 := by linarith
+      apply hc
+      ext
+      · simpa using e1
+      · simpa using e2
+    · have : ((t.groups.map prodFact).prod : ℕ) ≠ 0 := by
+        apply List.prod_ne_zero
+        intro h0
+        obtain ⟨s, _, hs⟩ := List.mem_map.1 h0
+        exact prodFact_ne_zero s hs
+      exact_mod_cast Nat.pos_of_ne_zero this
+  have hle : GQ.normSq t.coef * ((t.groups.map prodFact).prod : ℚ) ≤ svNorm2 terms := by
+    unfold svNorm2
+    exact List.single_le_sum (fun x hx => by
+      obtain ⟨t', _, rfl⟩ := List.mem_map.1 hx
+      exact hnn t') _ (List.mem_map.2 ⟨t, ht, rfl⟩)
+  exact ne_of_gt (lt_of_lt_of_le hpos hle)
+
+/-- a well-formed member of a mixture of superpositions: `m`-mode groups, pairwise distinct basis states,
+not the zero vector -/
+def MemberOK (m : ℕ) (mb : Member) : Prop :=
+  (∀ t ∈ mb.terms, ∀ s ∈ t.groups, s.length = m) ∧ (mb.terms.map (·.groups)).Nodup ∧
+    svNorm2 mb.terms ≠ 0
+
+/-- witness for `Props/C03.lean`: `|2,0>_a|0,1>_b + i·|1,1>_a|1,0>_b` (rescaled coefficients) -/
+def exSV : List Term := [⟨1, [[2, 0], [0, 1]]⟩, ⟨⟨0, 1⟩, [[1, 1], [1, 0]]⟩]
+
 end PM.C03
